@@ -2266,7 +2266,14 @@ impl<'store> AnnotationStore {
                     unreachable!("unknown query type");
                 }
             } else {
-                unreachable!("mutable query must have subquery");
+                //(a query can be built or parsed without one: that is an error of the query, not a bug)
+                Err(StamError::QuerySyntaxError(
+                    format!(
+                        "{} query must have a subquery that selects the items it applies to",
+                        query.querytype().as_str()
+                    ),
+                    "",
+                ))
             }
         }
     }
